@@ -10,35 +10,41 @@ static std::unique_ptr<igris::timer_manager> M;
 static std::unique_ptr<igris::timer<int>> T[MAXT + 1];
 static Eff eff[MAXT + 1];
 static int NT; static long now_; static std::vector<long long> fired;
+// the manager sees time BASE + t * 2^SC and intervals iv * 2^SC (scheduling is invariant under this map); events are logged in model units
+static int SC = 0; static long BASE = 0;
+static long up(long t) { return BASE + t * (1L << SC); }
+static long upd(long d) { return d * (1L << SC); }
+static long down(long t) { return (t - BASE) >> SC; }
+static long downd(long d) { return d >> SC; }
 static stimer_head ST;
 static void cb(int id) {
     fired.push_back(id);
     const Eff &e = eff[id];
     if (e.kind == 1) T[e.t]->unplan();
-    else if (e.kind == 2) M->plan(*T[e.t], now_ + e.ds, e.iv);
+    else if (e.kind == 2) M->plan(*T[e.t], up(now_ + e.ds), upd(e.iv));
 }
 static void observe(Ev &e, long tm) {
     std::vector<long long> pl, fin, mi;
-    for (int t = 1; t <= NT; ++t) { pl.push_back(T[t]->is_planned() ? 1 : 0); fin.push_back(T[t]->finish()); }
-    if (!M->empty()) mi.push_back(M->minimal_interval(tm));
+    for (int t = 1; t <= NT; ++t) { pl.push_back(T[t]->is_planned() ? 1 : 0); fin.push_back(down(T[t]->finish())); }
+    if (!M->empty()) mi.push_back(downd(M->minimal_interval(up(tm))));
     e.ints("planned", pl).ints("fin", fin).i("empty", M->empty() ? 1 : 0).ints("mi", mi);
 }
 int main(int argc, char **argv) {
     return run(argc, argv, [&](const std::vector<std::string> &t) {
         const std::string &op = t[0];
         if (op == "R") {
-            if (t[1] == "tm") { for (int i = 1; i <= MAXT; ++i) T[i].reset(); M.reset(new igris::timer_manager()); NT = num(t[2]); now_ = 0;
-                for (int i = 1; i <= NT; ++i) { T[i].reset(new igris::timer<int>(igris::make_delegate(cb), (int)i)); T[i]->set_start(0); T[i]->set_interval(1); eff[i] = Eff(); }
-                Ev e("Reset"); e.str("kind", "tm").i("nt", NT); observe(e, now_); e.end(); }
+            if (t[1] == "tm") { for (int i = 1; i <= MAXT; ++i) T[i].reset(); M.reset(new igris::timer_manager()); NT = num(t[2]); now_ = 0; SC = t.size() > 3 ? (int)num(t[3]) : 0; BASE = t.size() > 4 ? (long)num(t[4]) : 0;
+                for (int i = 1; i <= NT; ++i) { T[i].reset(new igris::timer<int>(igris::make_delegate(cb), (int)i)); T[i]->set_start(up(0)); T[i]->set_interval(upd(1)); eff[i] = Eff(); }
+                Ev e("Reset"); e.str("kind", "tm").i("nt", NT).i("scale", SC).i("base_hi", (long)(BASE >> 31)).i("base_lo", (long)(BASE & 0x7fffffff)); observe(e, now_); e.end(); }
             else { stimer_init(&ST, 0, 1); Ev e("Reset"); e.str("kind", "st").i("nt", 1); e.end(); }
             return; }
-        if (op == "Plan") { M->plan(*T[num(t[1])], num(t[2]), num(t[3])); Ev e("Plan"); e.i("t", num(t[1])).i("st", num(t[2])).i("iv", num(t[3])); observe(e, now_); e.end(); }
+        if (op == "Plan") { M->plan(*T[num(t[1])], up(num(t[2])), upd(num(t[3]))); Ev e("Plan"); e.i("t", num(t[1])).i("st", num(t[2])).i("iv", num(t[3])); observe(e, now_); e.end(); }
         else if (op == "Replan") { M->plan(*T[num(t[1])]); Ev e("Replan"); e.i("t", num(t[1])); observe(e, now_); e.end(); }
         else if (op == "Unplan") { T[num(t[1])]->unplan(); Ev e("Unplan"); e.i("t", num(t[1])); observe(e, now_); e.end(); }
         else if (op == "SetCb") { int id = num(t[1]); Eff x; std::string k = t[2];
             if (k == "unplan") { x.kind = 1; x.t = num(t[3]); } else if (k == "plan") { x.kind = 2; x.t = num(t[3]); x.ds = num(t[4]); x.iv = num(t[5]); }
             eff[id] = x; Ev e("SetCb"); e.i("t", id).str("k", k.c_str()).i("k2", x.t).i("ds", x.ds).i("iv", x.iv); observe(e, now_); e.end(); }
-        else if (op == "Exec") { now_ = num(t[1]); fired.clear(); M->exec(now_); Ev e("Exec"); e.i("now", now_).ints("fired", fired); observe(e, now_); e.end(); }
+        else if (op == "Exec") { now_ = num(t[1]); fired.clear(); M->exec(up(now_)); Ev e("Exec"); e.i("now", now_).ints("fired", fired); observe(e, now_); e.end(); }
         else if (op == "SInit") { stimer_init(&ST, num(t[1]), num(t[2])); Ev e("SInit"); e.i("st", num(t[1])).i("iv", num(t[2])).i("sstart", ST.start).i("sint", ST.interval).i("splaned", ST.planed); e.end(); }
         else if (op == "SPlan") { stimer_plan(&ST, num(t[1]), num(t[2])); Ev e("SPlan"); e.i("st", num(t[1])).i("iv", num(t[2])).i("sstart", ST.start).i("sint", ST.interval).i("splaned", ST.planed); e.end(); }
         else if (op == "SStart") { stimer_start(&ST, num(t[1])); Ev e("SStart"); e.i("st", num(t[1])).i("sstart", ST.start).i("sint", ST.interval).i("splaned", ST.planed); e.end(); }
